@@ -15,6 +15,11 @@ def _check_stages(stages):
         raise ValueError("Synchronization stage count may not safely be less than 2")
 
 
+def _check_domain(domain):
+    if domain == "comb":
+        raise ValueError("Domain 'comb' is not a clock domain, and cannot be used for synchronization")
+
+
 class FFSynchronizer(Elaboratable):
     """Resynchronise a signal to a different clock domain.
 
@@ -68,6 +73,7 @@ class FFSynchronizer(Elaboratable):
     def __init__(self, i, o, *, o_domain="sync", init=None, reset=None, reset_less=True, stages=2,
                  max_input_delay=None):
         _check_stages(stages)
+        _check_domain(o_domain)
 
         self.i = i
         self.o = o
@@ -139,6 +145,7 @@ class AsyncFFSynchronizer(Elaboratable):
     """
     def __init__(self, i, o, *, o_domain="sync", stages=2, async_edge="pos", max_input_delay=None):
         _check_stages(stages)
+        _check_domain(o_domain)
 
         if len(i) != 1:
             raise ValueError("AsyncFFSynchronizer input width must be 1, not {}"
@@ -229,6 +236,7 @@ class ResetSynchronizer(Elaboratable):
     """
     def __init__(self, arst, *, domain="sync", stages=2, max_input_delay=None):
         _check_stages(stages)
+        _check_domain(domain)
 
         self.arst = arst
 
@@ -262,6 +270,8 @@ class PulseSynchronizer(Elaboratable):
     """
     def __init__(self, i_domain, o_domain, *, stages=2):
         _check_stages(stages)
+        _check_domain(i_domain)
+        _check_domain(o_domain)
 
         self.i = Signal()
         self.o = Signal()
